@@ -14,7 +14,7 @@ def run(ctx: Ctx) -> list[Ob]:
     obs += r4.layer_contracts(ctx, {"R4c"})
     obs += r4.query_contracts(ctx, {"integrate"})
     obs += r13.r13d(ctx)
-    obs += r8.scope_membership(ctx, "cirkit.backend.torch.queries.IntegrateQuery.scopes_to_mask", "out-of-scope:membership")
+    obs += r8.scope_membership(ctx, "cirkit.backend.torch.queries.IntegrateQuery.scopes_to_mask", "out-of-scope:membership") + r8.scope_membership(ctx, "cirkit.backend.torch.queries.IntegrateQuery.__call__", "out-of-scope:mask-tensor", within="isinstance(integrate_vars, Tensor)")
     obs.append(
         r8.dominates_call(
             ctx,
@@ -43,12 +43,12 @@ SPEC = PropSpec(
         "IntegrateQuery (__init__, __call__, scopes_to_mask, _layer_fn) fire under every valuation; R4c / R4q (symbolic shape interpretation of the source, nothing "
         "executed): log_partition_function() and integrate() of every exponential-family layer return (F, 1, Ko) in every "
         "parameterisation, and IntegrateQuery._layer_fn applied to every concrete input layer with a mask of batch 1 or B returns "
-        "(F, B, Ko) -- the torch.where selection broadcasts for every batch and fold size, not only when they coincide. R13d: the per-sample rows of the mask built by scopes_to_mask are addressed with the counter of enumerate over the batch sequence itself (the one whose length sizes the mask), never over a filtered copy -- 'per sample' means sample k's scope lands in row k even when an earlier sample marginalises nothing; R8m: the out-of-scope refusal derives from the circuit's scope used as a set (difference / subset / membership), not from a bound on the largest id."
+        "(F, B, Ko) -- the torch.where selection broadcasts for every batch and fold size, not only when they coincide. R13d: the per-sample rows of the mask built by scopes_to_mask are addressed with the counter of enumerate over the batch sequence itself (the one whose length sizes the mask), never over a filtered copy -- 'per sample' means sample k's scope lands in row k even when an earlier sample marginalises nothing; R8m: the out-of-scope refusal derives from the circuit's scope used as a set (difference / subset / membership), not from a bound on the largest id -- on the Scope path (scopes_to_mask) and on the mask-tensor path (__call__: a True in the column of an id in a gap of the scope is refused, not ignored)."
         " R8 nothing-selected: in _layer_fn the call of layer.integrate() is unreachable when torch.any(<mask of this layer>) is false -- input layers outside the integration scope (Embedding, constant layers of operator results) may have no integral at all. R8s: the per-layer mask is only ever a selector (torch.where / masked assignment), never an arithmetic factor -- 0 * -inf is nan in log space."
         " R10i (queries): no query method writes in place into (an alias of) its arguments -- a batch that is overwritten at the integrated positions gives wrong marginals to the next query on the same tensor. R4q also interprets _layer_fn on constant layers (scope index (F, 0), handed the batch size): circuits produced by evidence / partial integration contain them."
         ' R11m: an exponential-family layer whose log_unnormalized_likelihood is a torch.distributions log_prob (already normalised), possibly plus a parameter A of the layer, has log_partition_function equal to that A -- zeros when nothing is added; the textbook log-normaliser (n * softplus(logits) of a Binomial) would be counted twice, on that parameterisation only.'
     ),
     not_decided="numerical equality with the symbolic integrate; the mask arithmetic of _layer_fn.",
     run=run,
-    floors={"R11m": 3, "R13d": 1, "R8m": 1, "R4": 4, "R8": 6, "R4c": 10, "R4q": 10},
+    floors={"R11m": 3, "R13d": 1, "R8m": 2, "R4": 4, "R8": 6, "R4c": 10, "R4q": 10},
 )
